@@ -1,6 +1,7 @@
 from .parameter_group_number import ParameterGroupNumber
 from .message_id import MessageId
 import logging
+import threading
 import time
 
 logger = logging.getLogger(__name__)
@@ -41,6 +42,8 @@ class J1939_21:
     def __init__(self, send_message, job_thread_wakeup, notify_subscribers, max_cmdt_packets, minimum_tp_rts_cts_dt_interval, minimum_tp_bam_dt_interval, ecu_is_message_acceptable):
         # Receive buffers
         self._rcv_buffer = {}
+        # the receive path registers sessions, the job thread removes the ones that time out
+        self._rcv_lock = threading.Lock()
         # Send buffers
         self._snd_buffer = {}
 
@@ -180,7 +183,10 @@ class J1939_21:
                         # TODO: should we handle retries?
                         self.__send_tp_abort(buf['dest_address'], buf['src_address'], self.ConnectionAbortReason.TIMEOUT, buf['pgn'])
                     # TODO: should we notify our CAs about the cancelled transfer?
-                    self._rcv_buffer.pop(bufid, None)
+                    with self._rcv_lock:
+                        if self._rcv_buffer.get(bufid) is buf:
+                            # (not a session the receive path has opened for this pair in the meantime)
+                            self._rcv_buffer.pop(bufid, None)
 
         # check send buffers
         # using "list(x)" to prevent "RuntimeError: dictionary changed size during iteration"
@@ -324,7 +330,7 @@ class J1939_21:
             max_num_packages = min(max_num_packages, num_packages)
 
             # open new buffer for this connection
-            self._rcv_buffer[buffer_hash] = {
+            new_session = {
                     'pgn': pgn,
                     'message_size': message_size,
                     'num_packages': num_packages,
@@ -336,6 +342,8 @@ class J1939_21:
                     'src_address' : src_address,
                     'dest_address' : dest_address,
                 }
+            with self._rcv_lock:
+                self._rcv_buffer[buffer_hash] = new_session
 
             self.__send_tp_cts(dest_address, src_address, self._rcv_buffer[buffer_hash]['num_packages_max_rec'], 1, pgn)
             self.__job_thread_wakeup()
@@ -398,7 +406,7 @@ class J1939_21:
                 self.__job_thread_wakeup()
 
             # init new buffer for this connection
-            self._rcv_buffer[buffer_hash] = {
+            new_session = {
                     "pgn": pgn,
                     "message_size": message_size,
                     "num_packages": num_packages,
@@ -409,6 +417,8 @@ class J1939_21:
                     'src_address' : src_address,
                     'dest_address' : dest_address,
                 }
+            with self._rcv_lock:
+                self._rcv_buffer[buffer_hash] = new_session
             self.__job_thread_wakeup()
         elif control_byte == self.ConnectionMode.ABORT:
             # if abort received before transmission established -> cancel transmission
